@@ -37,6 +37,7 @@ type Gen struct {
 
 	sent     [][]byte // MessageSent payloads observed (candidates for replacement)
 	autoDump bool
+	capture  *[]Op // when set, ops are collected instead of executed (used by the crash scenario)
 	stats    map[string]int
 }
 
@@ -70,6 +71,12 @@ func NewGen(seed int64, ops, obs *bufio.Writer) *Gen {
 
 // emit runs one op on the implementation and records both lines.
 func (g *Gen) emit(op Op) string {
+	if g.capture != nil {
+		if op.Kind != "dump" {
+			*g.capture = append(*g.capture, op)
+		}
+		return ""
+	}
 	line := op.String()
 	o := g.s.Exec(ParseOp(line)) // always through the textual form: the file is the replay
 	fmt.Fprintln(g.ops, line)
